@@ -24,7 +24,7 @@ RULE = ("one case = one complete Simulator.run(): 1-6 stations (EVSE / DeadbandE
         "120/208/240/277), period 1/5/15, sessions per station with back-to-back reuse and gaps, Battery / "
         "Linear2StageBattery continuous / stepwise (noise 0 and, with a patched np.random.normal, noise > 0) at initial "
         "SoC around every regime boundary, scripted scheduler (max_recompute 1 / k / None, multi-period schedules, "
-        "non-zero pilots addressed to vacant stations); a quarter of the runs on contrib StochasticNetwork (random assignment, waiting queue, swaps, early departure; attach/detach logged per EVSE); ~10% malformed histories (one invalid pilot / a session plugged into an occupied station / an unregistered station): run() aborts and the model must fail at exactly that operation. "
+        "non-zero pilots addressed to vacant stations); station ids whose lexicographic order differs from the registration order (S-8..S-11, mixed case, numeric strings, descending); ~30% of the plain-network runs pass through to_json()/from_json() (finished run reloaded, or check-pointed mid-run, reloaded, fresh scheduler, continued) and are observed on the reloaded object by station name; a quarter of the runs on contrib StochasticNetwork (random assignment, waiting queue, swaps, early departure; attach/detach logged per EVSE); ~10% malformed histories (one invalid pilot / a session plugged into an occupied station / an unregistered station): run() aborts and the model must fail at exactly that operation. "
         "Distinct = distinct (network, sessions, pilot script); non-trivial = at least one period delivers energy")
 ASSUMPTIONS = ["theorems are over R (exact arithmetic); the implementation computes in IEEE doubles (values compared to 1e-9 relative)",
                "every session id is plugged at most once (C01) and station ids are distinct",
@@ -72,88 +72,126 @@ class NoiseScript:
         return v
 
 
+# ------------------------------------------------------------------------------------------------
+# recording network classes.  They are MODULE-LEVEL (so that Simulator.from_json can locate them) and log into the
+# module-global _REC, so a network rebuilt by from_json keeps recording.  Everything is keyed by station NAME and
+# emitted in REGISTRATION order (inp["names"]), never by the network's internal row order.
+# ------------------------------------------------------------------------------------------------
+_REC = None
+from acnportal.acnsim.network.charging_network import ChargingNetwork as _ChargingNetwork      # noqa: E402
+from acnportal.contrib.acnsim import StochasticNetwork as _StochasticNetwork                    # noqa: E402
+
+
+def _sidx(name):
+    return _REC["names"].index(name) if name in _REC["names"] else -1
+
+
+def _batt_desc(ev):
+    b = ev._battery
+    return dict(kind=_REC["batt_kind"][ev.session_id], cap=b._capacity, cur=b._current_charge,
+                pow=b._current_charging_power, maxp=b._max_power,
+                noise=getattr(b, "_noise_level", 0), tsoc=getattr(b, "_transition_soc", 0))
+
+
+class _Recording:
+    # plain ChargingNetwork: plugin / unplug are logged at the network entry points (so KeyError /
+    # StationOccupiedError paths are part of the recorded sequence).
+    def plugin(self, ev, station_id=None):
+        if not _REC["stochastic"]:
+            _REC["ops"].append(["plugin", _sidx(ev.station_id), _REC["sess_num"][ev.session_id], _batt_desc(ev)])
+        return super().plugin(ev)
+
+    def unplug(self, station_id, session_id=None):
+        if not _REC["stochastic"]:
+            _REC["ops"].append(["unplug", _sidx(station_id), _REC["sess_num"][session_id]])
+        return super().unplug(station_id, session_id)
+
+    def update_pilots(self, pilots, i, period):
+        names, sess_num, draw_log = _REC["names"], _REC["sess_num"], _REC["draw_log"]
+        ids = self.station_ids                      # the pilot that station NAME receives is row ids.index(NAME)
+        col = [float(pilots[ids.index(nm), i]) if nm in ids else 0.0 for nm in names]
+        step_op = ["step", col, None]
+        _REC["ops"].append(step_op)
+        mark = len(draw_log)
+        where = {sess_num[self._EVSEs[nm].ev.session_id]: k for k, nm in enumerate(names)
+                 if nm in self._EVSEs and self._EVSEs[nm].ev is not None}
+        try:
+            return super().update_pilots(pilots, i, period)
+        finally:
+            per_station = [[] for _ in names]
+            for sid, draws in draw_log[mark:]:
+                per_station[where[sid]] = draws
+            step_op[2] = per_station
+
+    def post_charging_update(self):
+        _REC["occ"].append([None if self._EVSEs[nm].ev is None else _REC["sess_num"][self._EVSEs[nm].ev.session_id]
+                            for nm in _REC["names"]])
+        return super().post_charging_update()
+
+
+class RecordingNetwork(_Recording, _ChargingNetwork):
+    pass
+
+
+class RecordingStochasticNetwork(_Recording, _StochasticNetwork):
+    pass
+
+
+class _Checkpoint(Exception):
+    """raised by the scripted scheduler at the chosen invocation: the run is interrupted, dumped with to_json(),
+    restored with from_json() and continued with a fresh scheduler"""
+
+
+NAME_SCHEMES = [
+    lambda i: "st%d" % i,                                         # already sorted
+    lambda i: "S-%d" % (i + 8),                                   # S-8, S-9, S-10, S-11 ...: numeric, not lexicographic
+    lambda i: ["b2", "B10", "10", "9", "a", "A-1"][i],            # mixed case / numeric-looking strings
+    lambda i: "PS-%d" % (11 - i),                                 # descending
+]
+
+
+def station_names(inp):
+    return [NAME_SCHEMES[inp.get("name_scheme", 0)](i) for i in range(len(inp["stations"]))]
+
+
 def run_history(inp, extra=None, midrun=None):
     """Run the real Simulator on the history `inp`; returns the recorded ops and observables.
     `extra(sim, station_ids, sess_num)` (optional) is evaluated on the finished simulator (used by C18);
     `midrun(sim, station_ids, sess_num)` (optional) is evaluated from inside the scheduling algorithm, every time
-    it is invoked while the run is in progress (results in out["midrun"])."""
+    it is invoked while the run is in progress (results in out["midrun"]).
+    inp["json"] = "final": the completed simulator is passed through to_json()/from_json() and everything is observed
+    on the RELOADED object; "midrun": the run is interrupted at scheduler invocation inp["json_at"], dumped, reloaded,
+    given a fresh scheduler (update_scheduler) and continued."""
+    global _REC
     import numpy as np
     from datetime import datetime
     from acnportal import acnsim
-    from acnportal.acnsim import ChargingNetwork, Simulator, EventQueue, PluginEvent
+    from acnportal.acnsim import Simulator, EventQueue, PluginEvent
     from acnportal.acnsim.models import EV
     from acnportal.algorithms import BaseAlgorithm
     import acnportal.acnsim.models.battery as battery_mod
 
-    ops = []
-    occ = []
-    station_ids = ["st%d" % i for i in range(len(inp["stations"]))]
-    sess_num = {}
-    noise = NoiseScript(inp.get("noise_draws", []))
-    draw_log = []
-    flags = dict(ambiguous=False)
-
+    station_ids = station_names(inp)
     stochastic = inp.get("net_class") == "stochastic"
-
-    def batt_desc(ev):
-        b = ev._battery
-        return dict(kind=ev_batt_kind[ev.session_id], cap=b._capacity, cur=b._current_charge,
-                    pow=b._current_charging_power, maxp=b._max_power,
-                    noise=getattr(b, "_noise_level", 0), tsoc=getattr(b, "_transition_soc", 0))
-
-    class Recording:
-        # plain ChargingNetwork: plugin / unplug are logged at the network entry points (so KeyError /
-        # StationOccupiedError paths are part of the recorded sequence).
-        def plugin(self, ev, station_id=None):
-            if not stochastic:
-                ops.append(["plugin", station_ids.index(ev.station_id) if ev.station_id in station_ids else -1,
-                            sess_num[ev.session_id], batt_desc(ev)])
-            return super().plugin(ev)
-
-        def unplug(self, station_id, session_id=None):
-            if not stochastic:
-                ops.append(["unplug", station_ids.index(station_id) if station_id in station_ids else -1,
-                            sess_num[session_id]])
-            return super().unplug(station_id, session_id)
-
-        def update_pilots(self, pilots, i, period):
-            col = [float(x) for x in pilots[:, i]]
-            step_op = ["step", col, None]
-            ops.append(step_op)
-            mark = len(draw_log)
-            where = {sess_num[e.ev.session_id]: k for k, e in enumerate(self._EVSEs.values()) if e.ev is not None}
-            try:
-                return super().update_pilots(pilots, i, period)
-            finally:
-                per_station = [[] for _ in station_ids]
-                for sid, draws in draw_log[mark:]:
-                    per_station[where[sid]] = draws
-                step_op[2] = per_station
-
-        def post_charging_update(self):
-            occ.append([None if e.ev is None else sess_num[e.ev.session_id] for e in self._EVSEs.values()])
-            return super().post_charging_update()
+    noise = NoiseScript(inp.get("noise_draws", []))
+    _REC = dict(ops=[], occ=[], names=station_ids, sess_num={}, batt_kind={}, draw_log=[], stochastic=stochastic)
+    ops, occ, sess_num, ev_batt_kind, draw_log = _REC["ops"], _REC["occ"], _REC["sess_num"], _REC["batt_kind"], _REC["draw_log"]
+    flags = dict(ambiguous=False, reloaded=0)
 
     if stochastic:
         # the contrib subclass (random space assignment, waiting queue, swaps, early departure) detaches and
         # attaches EVs through the EVSE objects directly: there the attach / detach calls are logged per EVSE
         import random as _random
-        from acnportal.contrib.acnsim import StochasticNetwork
-
-        class RecNet(Recording, StochasticNetwork):
-            pass
         _rand_state = _random.getstate()
         _random.seed(inp.get("rand_seed", 0))
-        net = RecNet(early_departure=bool(inp.get("early_departure")))
+        net = RecordingStochasticNetwork(early_departure=bool(inp.get("early_departure")))
     else:
-        class RecNet(Recording, ChargingNetwork):
-            pass
-        net = RecNet()
+        net = RecordingNetwork()
     for k, (sid, st) in enumerate(zip(station_ids, inp["stations"])):
         evse = make_evse(sid, tuple(st["kind"]))
         if stochastic:
             def _plugin(ev, _orig=evse.plugin, _k=k):
-                ops.append(["plugin", _k, sess_num[ev.session_id], batt_desc(ev)])
+                ops.append(["plugin", _k, sess_num[ev.session_id], _batt_desc(ev)])
                 return _orig(ev)
 
             def _unplug(_orig=evse.unplug, _k=k, _evse=evse):
@@ -167,8 +205,6 @@ def run_history(inp, extra=None, midrun=None):
         from acnportal.acnsim.network.current import Current
         net.add_constraint(Current({station_ids[int(k)]: v for k, v in c["coefs"].items()}), c["limit"], name=c["name"])
 
-    evs = []
-    ev_batt_kind = {}
     events = []
     for k, s in enumerate(inp["sessions"]):
         name = "sess%d" % k
@@ -189,21 +225,28 @@ def run_history(inp, extra=None, midrun=None):
                 return _orig(pilot, voltage, period)
             finally:
                 draw_log.append((_k, noise.log[before:]))
-        batt.charge = charge
+        if not inp.get("json"):
+            # (an instance attribute would be serialised as an opaque stub by to_json; JSON cases are noise-free)
+            batt.charge = charge
         ev = EV(s["arrival"], s["departure"], s["requested"],
                 station_ids[s["station"]] if s["station"] >= 0 else "not-registered", name, batt)
-        evs.append(ev)
         events.append(PluginEvent(s["arrival"], ev))
 
     script = inp["script"]           # list of (length, {station index: [pilots]}) per iteration
+    json_mode = inp.get("json")
+    calls = dict(n=0)
 
     class Scripted(BaseAlgorithm):
-        def __init__(self):
+        def __init__(self, checkpoint_at=None):
             super().__init__()
             self.max_recompute = inp["max_recompute"]
+            self.checkpoint_at = checkpoint_at
 
         def schedule(self, active_sessions):
             t = self.interface.current_time
+            calls["n"] += 1
+            if self.checkpoint_at is not None and calls["n"] == self.checkpoint_at:
+                raise _Checkpoint()
             if midrun is not None:
                 mid_results.append(midrun(self.interface._simulator, station_ids, sess_num))
             if t >= len(script):
@@ -218,15 +261,34 @@ def run_history(inp, extra=None, midrun=None):
     try:
         with warnings.catch_warnings():
             warnings.simplefilter("ignore")
-            sim = Simulator(net, Scripted(), EventQueue(events), datetime(2021, 3, 4), period=inp["period"],
-                            verbose=False)
+            sim = Simulator(net, Scripted(inp.get("json_at") if json_mode == "midrun" else None),
+                            EventQueue(events), datetime(2021, 3, 4), period=inp["period"], verbose=False)
             try:
-                sim.run()
+                try:
+                    sim.run()
+                except _Checkpoint:
+                    # check-point in the middle of the run: dump, reload, fresh scheduler, continue
+                    sim = Simulator.from_json(sim.to_json())
+                    flags["reloaded"] += 1
+                    sim.update_scheduler(Scripted())
+                    sim.run()
             except Exception as e:  # noqa
                 err = type(e).__name__
+            if json_mode == "final" and err is None:
+                # a finished run reloaded for analysis
+                sim = Simulator.from_json(sim.to_json())
+                flags["reloaded"] += 1
             it = sim.iteration
-            rates = np.array(sim.charging_rates)
+            # everything below is what the (possibly reloaded) objects report about themselves, by station NAME
+            ids_now = list(sim.network.station_ids)
+            rates_now = np.array(sim.charging_rates)
+            rates = np.array([rates_now[ids_now.index(nm)] if nm in ids_now else np.zeros(rates_now.shape[1])
+                              for nm in station_ids]).reshape(len(station_ids), rates_now.shape[1])
+            volts_now = sim.network.voltages
             out = dict(ok=err is None, error=err, iteration=int(it), ops=ops, occ=occ, ambiguous=flags["ambiguous"],
+                       reloaded=flags["reloaded"], station_names=station_ids, station_ids_now=ids_now,
+                       swaps=int(getattr(sim.network, "swaps", 0)), early_unplug=int(getattr(sim.network, "early_unplug", 0)),
+                       volts_reported=[float(volts_now[nm]) if nm in volts_now else None for nm in station_ids],
                        width=int(rates.shape[1]),
                        rates=[[float(x) for x in rates[:, t]] for t in range(min(it, rates.shape[1]))],
                        tail_zero=bool(np.all(rates[:, it:] == 0)),
@@ -304,6 +366,17 @@ def gen_history(rng, tier, force=None):
     stations = [dict(kind=rng.choice(KINDS), voltage=rng.choice(VOLTS), phase=rng.choice([30, -90, 150, 0]))
                 for _ in range(n)]
     noisy = rng.random() < 0.3
+    # JSON round trips (plain ChargingNetwork, noise-free so that nothing depends on instance-level wrappers):
+    # "final" = the finished run is reloaded and observed on the reloaded object; "midrun" = the run is check-pointed
+    # at a scheduler invocation, reloaded, given a fresh scheduler and continued
+    json_mode = None
+    if force in ("json-final", "json-midrun"):
+        json_mode = force[5:]
+    elif force is None and rng.random() < 0.3:
+        json_mode = rng.choice(["final", "midrun"])
+    if json_mode:
+        noisy = False
+    name_scheme = rng.choice([0, 1, 1, 2, 2, 3])
     sessions = []
     for s in range(n):
         if rng.random() < 0.15:
@@ -318,13 +391,19 @@ def gen_history(rng, tier, force=None):
     # a quarter of the histories run on the contrib subclass StochasticNetwork (random free station, waiting
     # queue, swaps, optional early departure): it attaches / detaches EVs through the EVSEs directly.  Extra
     # overlapping sessions create queueing; sessions still draw current when they leave, stations stay vacant after
-    stoch = force == "stochastic" or (force is None and rng.random() < 0.25)
+    stoch = force == "stochastic" or (force is None and json_mode is None and rng.random() < 0.3)
     if stoch:
-        for _ in range(rng.randint(0, 3)):
-            t = rng.randint(0, H)
+        # saturate the site: more simultaneous sessions than stations (waiting queue, swaps); small requests so
+        # that sessions reach their requested energy while still drawing current (early departure swaps an EV in
+        # from the queue inside post_charging_update)
+        for _ in range(rng.randint(1, 4)):
+            t = rng.randint(0, min(H, 3))
             b = rand_battery(rng, noisy)
-            sessions.append(dict(station=rng.randrange(n), arrival=t, departure=t + rng.randint(1, 5),
+            sessions.append(dict(station=rng.randrange(n), arrival=t, departure=t + rng.randint(3, 8),
                                  requested=round(rng.uniform(0.1, max(0.2, b["cap"] - b["init"])), 3), battery=b))
+        for s_ in sessions:
+            if rng.random() < 0.5:
+                s_["requested"] = rng.choice([0.02, 0.05, 0.2, 0.5, 1.0])
     rng.shuffle(sessions)
     last = max([s["departure"] for s in sessions], default=0)
     mode = rng.random()
@@ -374,9 +453,11 @@ def gen_history(rng, tier, force=None):
         bad = ["unknown-station", -1]
     draws = [round(rng.gauss(0, 1), 4) for _ in range(17)] if noisy else []
     out = dict(stations=stations, period=period, sessions=sessions, script=script,
-               max_recompute=max_recompute, noise_draws=draws, bad=bad)
+               max_recompute=max_recompute, noise_draws=draws, bad=bad, name_scheme=name_scheme)
+    if json_mode and bad is None:
+        out.update(json=json_mode, json_at=rng.randint(1, max(1, min(8, last))))
     if stoch:
-        out.update(net_class="stochastic", rand_seed=rng.randint(0, 10**6), early_departure=rng.random() < 0.4)
+        out.update(net_class="stochastic", rand_seed=rng.randint(0, 10**6), early_departure=rng.random() < 0.65)
     return out
 
 
@@ -439,7 +520,9 @@ def make_case(inp):
     nb = sum(1 for s in inp["sessions"] if s["battery"]["kind"] != "ideal")
     kind = "%s/%s/%s%s" % ("ok" if impl["ok"] else "abort:" + str(impl["error"]),
                            "noisy" if inp.get("noise_draws") else "noiseless",
-                           "mr=%s" % inp["max_recompute"], "/stochastic" if inp.get("net_class") == "stochastic" else "")
+                           "mr=%s" % inp["max_recompute"],
+                           ("/stochastic" if inp.get("net_class") == "stochastic" else "")
+                           + ("/json-%s%s" % (inp["json"], "" if impl.get("reloaded") else "(not reached)") if inp.get("json") else ""))
     return dict(input=inp, impl={k: v for k, v in impl.items()}, coq=case_coq(inp, impl), ambiguous=bool(impl.get("ambiguous")),
                 kind=kind, sig=[inp["stations"], inp["sessions"], inp["script"], inp["period"]],
                 nontrivial=delivered)
@@ -461,7 +544,8 @@ def pmap(fn, items, workers=8):
 
 
 def gen_cases(rng, n, tier):
-    inputs = [gen_history(rng, tier, {3: "invalid", 5: "overlap", 7: "unknown", 9: "stochastic"}.get(k)) for k in range(n)]
+    inputs = [gen_history(rng, tier, {3: "invalid", 5: "overlap", 7: "unknown", 9: "stochastic", 11: "json-final",
+                                      13: "json-midrun"}.get(k)) for k in range(n)]
     return pmap(make_case, inputs)
 
 
@@ -520,6 +604,13 @@ def monitor(case):
     tot = float(sum(F(s["energy"]) for s in impl["sessions"]))
     if not close(impl["total"], tot):
         return "total_energy_delivered %r but the sessions sum to %r" % (impl["total"], tot)
+    if "volts_reported" in impl:
+        for k, (v, w) in enumerate(zip(volts, impl["volts_reported"])):
+            if w is None or float(v) != float(w):
+                return "station %r was registered at %r V but the %snetwork reports %r V for it" % (
+                    impl["station_names"][k], v, "reloaded " if impl.get("reloaded") else "", w)
+        if sorted(impl["station_ids_now"]) != sorted(impl["station_names"]):
+            return "station ids %r differ from the registered ones %r" % (impl["station_ids_now"], impl["station_names"])
     return None
 
 
